@@ -139,10 +139,13 @@ func decodeBinaryValue(reader ByteRuneReader, flag int32) ([]byte, error) {
 		if err != nil {
 			return nil, err
 		}
-		if newLength < length {
+		if newLength <= cap(buf) {
 			buf = buf[:newLength]
-			length = newLength
+		} else {
+			// a later chunk may be longer than the first one
+			buf = make([]byte, newLength)
 		}
+		length = newLength
 	}
 
 	return byteBuf.Bytes(), nil
